@@ -132,6 +132,31 @@ Proof.
   intros P H0 Hs q [b [ls <-]]. apply run_invariant; auto.
 Qed.
 
+(** the program counter after [LWake k _] fired a kept registration: if that registration was made by the
+    stream poll in progress, that poll's waker has fired *)
+Definition wake_pc (p : pc) (k : N) : pc :=
+  match p with
+  | Polled ev0 QPending => if snd ev0 =? k then Polled ev0 QYield else p
+  | _ => p
+  end.
+
+Lemma step_LWake : forall q k consume,
+  step q (LWake k consume) =
+  match s_reg (the_src q k) with
+  | Some ev =>
+    (wake_receiver (set_fq q (f_counter q) (heap_insert ev (f_heap q)) (f_streams q)
+       (if consume then put_src k {| s_items := s_items (the_src q k); s_closed := s_closed (the_src q k); s_reg := None |} (f_srcs q)
+        else f_srcs q)
+       (f_rwaker q) (wake_pc (f_pc q) k) (f_parked q) (f_woken q) (f_wakes q)) true, [])
+  | None => (q, [])
+  end.
+Proof. reflexivity. Qed.
+
+Ltac wake_cases q k :=
+  unfold wake_pc;
+  destruct (f_pc q) as [| |?ev|?ev [?x| | |]] eqn:?Epc;
+  try (destruct (snd _ =? k) eqn:?Ewk).
+
 (** * A. exactly once, in order *)
 
 Lemma delivered_app : forall k a b, delivered k (a ++ b) = delivered k a ++ delivered k b.
@@ -165,13 +190,19 @@ Proof.
     + inversion H; subst; clear H; proj. rewrite app_nil_r, src_of_put.
       destruct (snd ev =? k) eqn:Ek; auto.
       apply N.eqb_eq in Ek; subst. rewrite Ei; auto.
+  - (* LR2Y *)
+    destruct (f_pc q) eqn:Epc; inversion H; subst; clear H; wr; rewrite ?Epc, ?app_nil_r; auto.
   - (* LR3 *)
     destruct (f_pc q) eqn:Epc; try (inversion H; subst; clear H; proj; rewrite ?Epc, ?app_nil_r; auto; fail).
     destruct r; inversion H; subst; clear H; proj; rewrite ?app_nil_r; auto.
   - (* LWake *)
-    rewrite the_src_eq in H.
+    fold (step q (LWake k0 consume)) in H. rewrite step_LWake, the_src_eq in H.
     destruct (s_reg (src_of (f_srcs q) k0)) eqn:Er; inversion H; subst; clear H; wr;
       rewrite ?app_nil_r; auto.
+    assert (Hfl : match wake_pc (f_pc q) k0 with Polled ev (QSome x) => if snd ev =? k then [x] else [] | _ => [] end =
+                  match f_pc q with Polled ev (QSome x) => if snd ev =? k then [x] else [] | _ => [] end)
+      by (wake_cases q k0; auto).
+    rewrite Hfl. cbn [delivered app]. f_equal.
     destruct consume; auto. rewrite src_of_put.
     destruct (k0 =? k) eqn:Ek; auto. apply N.eqb_eq in Ek; subst; auto.
   - (* LInsert *)
@@ -186,6 +217,8 @@ Proof.
   - (* LClose *)
     inversion H; subst; clear H; proj. rewrite the_src_eq, src_of_put, app_nil_r.
     destruct (k0 =? k) eqn:Ek; auto. apply N.eqb_eq in Ek; subst; auto.
+  - (* LYield *)
+    inversion H; subst; clear H. rewrite app_nil_r; auto.
 Qed.
 
 Lemma arrived_cons : forall k l t, arrived k (l :: t) = arrived k [l] ++ arrived k t.
@@ -315,7 +348,9 @@ Qed.
 
 Definition InvB (q : fq) : Prop :=
   (forall k, In k (f_streams q) -> has_claim q k) /\
-  (forall ev, f_pc q = Polled ev QPending -> has_claim q (snd ev)).
+  (forall ev, f_pc q = Polled ev QPending \/ f_pc q = Polled ev QYield -> has_claim q (snd ev)).
+
+Ltac nopol := let e := fresh "E" in intros ? [e|e]; discriminate e.
 
 Lemma InvB_step : forall q l, reg_key q -> InvB q -> InvB (fst (step q l)).
 Proof.
@@ -324,12 +359,12 @@ Proof.
   destruct l; unfold step.
   - (* LStart *)
     destruct (f_pc q) eqn:Epc; proj; rewrite ?Epc; auto.
-    split; auto. discriminate.
+    split; auto. nopol.
   - (* LR1 *)
     destruct (f_pc q) eqn:Epc; proj; rewrite ?Epc; auto.
     destruct (f_heap q) as [|ev h'] eqn:Eh.
-    + destruct (negb (is_nilN (f_streams q)) || f_block q); proj; (split; [auto|discriminate]).
-    + destruct (memN (snd ev) (f_streams q)) eqn:Em; proj; (split; [|discriminate]).
+    + destruct (negb (is_nilN (f_streams q)) || f_block q); proj; (split; [auto|nopol]).
+    + destruct (memN (snd ev) (f_streams q)) eqn:Em; proj; (split; [|nopol]).
       * intros k Hk. apply delN_In in Hk. destruct Hk. eapply claim_pop; eauto.
       * intros k Hk. eapply claim_pop; eauto. intros ->. apply memN_In in Hk. congruence.
   - (* LR2 *)
@@ -337,26 +372,35 @@ Proof.
     rewrite the_src_eq.
     destruct (s_items (src_of (f_srcs q) (snd ev))) eqn:Ei.
     + destruct (s_closed (src_of (f_srcs q) (snd ev))) eqn:Ec; proj.
-      * split; [auto|discriminate].
+      * split; [auto|nopol].
       * split.
         -- intros k Hk. destruct (N.eq_dec k (snd ev)) as [->|Hne].
            ++ apply claim_reg. cbn [s_reg]. discriminate.
            ++ destruct (I1 k Hk) as [Hp|H]; [left; auto|right].
               rewrite src_of_put_other; auto.
-        -- intros ev' E. inversion E; subst. apply claim_reg. cbn [s_reg]. discriminate.
-    + proj. split; [|discriminate]. intros k Hk. apply claim_put_keep; auto.
+        -- intros ev' [E|E]; inversion E; subst. apply claim_reg. cbn [s_reg]. discriminate.
+    + proj. split; [|nopol]. intros k Hk. apply claim_put_keep; auto.
+  - (* LR2Y *)
+    destruct (f_pc q) eqn:Epc; wr; rewrite ?Epc; auto.
+    split.
+    + intros k Hk. apply claim_heap_insert; auto.
+    + intros ev' [E|E]; inversion E; subst. destruct ev' as [p' k']. apply claim_heap_new.
   - (* LR3 *)
     destruct (f_pc q) eqn:Epc; proj; rewrite ?Epc; auto.
-    destruct r; proj; (split; [|discriminate]).
+    destruct r; proj; (split; [|nopol]).
     + intros k Hk. apply in_app_or in Hk. destruct Hk as [Hk|[<-|[]]].
       * apply claim_heap_insert; auto.
       * apply claim_heap_new.
     + auto.
     + intros k Hk. apply in_app_or in Hk. destruct Hk as [Hk|[<-|[]]]; auto.
+    + intros k Hk. apply in_app_or in Hk. destruct Hk as [Hk|[<-|[]]]; auto.
   - (* LWake *)
-    rewrite the_src_eq.
+    fold (step q (LWake k consume)). rewrite step_LWake, the_src_eq.
     destruct (s_reg (src_of (f_srcs q) k)) as [ev|] eqn:Er; proj; auto.
     wr. assert (Ek : snd ev = k) by (apply RK; rewrite the_src_eq; auto).
+    assert (Hpc : forall ev', wake_pc (f_pc q) k = Polled ev' QPending \/ wake_pc (f_pc q) k = Polled ev' QYield ->
+                  f_pc q = Polled ev' QPending \/ f_pc q = Polled ev' QYield).
+    { intros ev'. wake_cases q k; intros [E|E]; try discriminate; inversion E; subst; auto. }
     destruct consume.
     + split; intros; eapply claim_wake; eauto.
     + split; intros; apply claim_heap_insert; auto.
@@ -375,6 +419,8 @@ Proof.
     proj. rewrite the_src_eq. split; intros; apply claim_put_keep; auto.
   - (* LClose *)
     proj. rewrite the_src_eq. split; intros; apply claim_put_keep; auto.
+  - (* LYield *)
+    proj. split; auto.
 Qed.
 
 Lemma reg_key_reachable : forall q, reachable q -> reg_key q.
@@ -389,7 +435,7 @@ Proof.
   apply reachable_invariant.
   - intros b. split.
     + intros k ev. cbn. discriminate.
-    + split; cbn; intros; try contradiction; discriminate.
+    + split; cbn; [intros; contradiction|nopol].
   - intros q l [RK IB]. split; [apply reg_key_step | apply InvB_step]; auto.
 Qed.
 
@@ -397,42 +443,77 @@ Theorem fq_claim_invariant : forall q, reachable q -> forall k, In k (f_streams 
 Proof. intros q R. apply (InvB_reachable q R). Qed.
 
 (** * C, E. parked invariants *)
+(** while a stream is checked out, the receiver's waker is stored or has been invoked during this call *)
+Definition busy (p : pc) : bool := match p with Out _ | Polled _ _ => true | _ => false end.
+
 Definition InvP (q : fq) : Prop :=
   (f_parked q = true -> f_pc q = Idle) /\
-  (f_parked q = true -> f_woken q = false -> f_heap q = [] /\ f_rwaker q = true).
+  (f_parked q = true -> f_woken q = false -> f_heap q = [] /\ f_rwaker q = true) /\
+  (busy (f_pc q) = true -> f_woken q = false -> f_rwaker q = true) /\
+  (forall ev, f_pc q = Polled ev QYield -> f_woken q = true).
 
 Lemma InvP_step : forall q l, InvP q -> InvP (fst (step q l)).
 Proof.
-  intros q l [I1 I2]. unfold InvP.
+  intros q l (I1 & I2 & I3 & I4). unfold InvP.
   destruct l; unfold step.
-  - destruct (f_pc q) eqn:Epc; proj; rewrite ?Epc; auto. split; discriminate.
-  - destruct (f_pc q) eqn:Epc; proj; rewrite ?Epc; auto.
+  - (* LStart *)
+    destruct (f_pc q) eqn:Epc; proj; rewrite ?Epc; auto. repeat split; try discriminate.
+  - (* LR1 *)
+    destruct (f_pc q) eqn:Epc; proj; rewrite ?Epc; auto.
     destruct (f_heap q) as [|ev h'] eqn:Eh.
-    + destruct (negb (is_nilN (f_streams q)) || f_block q); proj; split; auto; discriminate.
-    + destruct (memN (snd ev) (f_streams q)); proj; split; discriminate.
-  - destruct (f_pc q) eqn:Epc; proj; rewrite ?Epc; auto.
+    + destruct (negb (is_nilN (f_streams q)) || f_block q); proj; repeat split; auto; discriminate.
+    + destruct (memN (snd ev) (f_streams q)); proj; repeat split; auto; discriminate.
+  - (* LR2 *)
+    destruct (f_pc q) eqn:Epc; proj; rewrite ?Epc; auto.
     assert (f_parked q = false) by (destruct (f_parked q); auto; specialize (I1 eq_refl); discriminate).
     destruct (s_items (the_src q (snd ev))); [destruct (s_closed (the_src q (snd ev)))|]; proj;
-      split; congruence.
-  - destruct (f_pc q) eqn:Epc; proj; rewrite ?Epc; auto.
+      repeat split; try congruence; auto; discriminate.
+  - (* LR2Y *)
+    destruct (f_pc q) eqn:Epc; proj; rewrite ?Epc; auto.
     assert (f_parked q = false) by (destruct (f_parked q); auto; specialize (I1 eq_refl); discriminate).
-    destruct r; proj; split; congruence.
-  - destruct (s_reg (the_src q k)); proj; auto.
     rewrite wr_parked, wr_pc, wr_woken, wr_heap, wr_rwaker. proj.
-    split; auto. intros Hp Hw. destruct (f_rwaker q) eqn:Erw; try discriminate.
-    destruct (I2 Hp Hw). congruence.
-  - proj. rewrite wr_parked, wr_pc, wr_woken, wr_heap, wr_rwaker. proj.
-    split; auto. intros Hp Hw. destruct (f_rwaker q) eqn:Erw; try discriminate.
-    destruct (I2 Hp Hw). congruence.
-  - proj. auto.
-  - proj. auto.
-  - proj. auto.
+    repeat split; try congruence.
+    + destruct (f_rwaker q) eqn:Erw; try discriminate. intros _ Hw. specialize (I3 eq_refl Hw). discriminate.
+    + intros ? _. destruct (f_rwaker q) eqn:Erw; auto. destruct (f_woken q) eqn:Ew; auto.
+  - (* LR3 *)
+    destruct (f_pc q) eqn:Epc; proj; rewrite ?Epc; auto.
+    assert (f_parked q = false) by (destruct (f_parked q); auto; specialize (I1 eq_refl); discriminate).
+    destruct r; proj; repeat split; try congruence; try discriminate.
+    + exfalso. rewrite (I4 _ eq_refl) in *. discriminate.
+    + exfalso. rewrite (I4 _ eq_refl) in *. discriminate.
+  - (* LWake *)
+    fold (step q (LWake k consume)). rewrite step_LWake.
+    destruct (s_reg (the_src q k)); proj; [|split; [|split; [|split]]; assumption].
+    rewrite wr_parked, wr_pc, wr_woken, wr_heap, wr_rwaker. proj.
+    assert (Hb : busy (wake_pc (f_pc q) k) = busy (f_pc q)) by (wake_cases q k; auto).
+    rewrite Hb.
+    split; [|split; [|split]].
+    + intros Hp. rewrite (I1 Hp). auto.
+    + intros Hp Hw. destruct (f_rwaker q) eqn:Erw; try discriminate.
+      destruct (I2 Hp Hw). congruence.
+    + intros Hbusy Hw. destruct (f_rwaker q) eqn:Erw; try discriminate.
+      specialize (I3 Hbusy Hw). discriminate.
+    + intros ev' E. destruct (f_rwaker q) eqn:Erw; auto.
+      destruct (f_woken q) eqn:Ew; auto. exfalso.
+      assert (Hbusy : busy (f_pc q) = true) by (rewrite <- Hb, E; auto).
+      specialize (I3 Hbusy eq_refl). discriminate.
+  - (* LInsert *)
+    proj. rewrite wr_parked, wr_pc, wr_woken, wr_heap, wr_rwaker. proj.
+    split; [|split; [|split]]; auto.
+    + intros Hp Hw. destruct (f_rwaker q) eqn:Erw; try discriminate.
+      destruct (I2 Hp Hw). congruence.
+    + intros Hbusy Hw. destruct (f_rwaker q) eqn:Erw; try discriminate. auto.
+    + intros ev' E. rewrite (I4 _ E). destruct (f_rwaker q); auto.
+  - proj. split; [|split; [|split]]; assumption.
+  - proj. split; [|split; [|split]]; assumption.
+  - proj. split; [|split; [|split]]; assumption.
+  - proj. split; [|split; [|split]]; assumption.
 Qed.
 
 Lemma InvP_reachable : forall q, reachable q -> InvP q.
 Proof.
   apply reachable_invariant.
-  - intros b. split; cbn; discriminate.
+  - intros b. repeat split; cbn; discriminate.
   - apply InvP_step.
 Qed.
 
@@ -442,12 +523,118 @@ Proof. intros q R. apply (InvP_reachable q R). Qed.
 Theorem fq_parked_invariant : forall q, reachable q ->
   f_parked q = true -> f_woken q = false -> f_heap q = [] /\ f_rwaker q = true /\ f_pc q = Idle.
 Proof.
-  intros q R Hp Hw. destruct (InvP_reachable q R) as [I1 I2].
+  intros q R Hp Hw. destruct (InvP_reachable q R) as (I1 & I2 & _).
   destruct (I2 Hp Hw). auto.
 Qed.
 
 Theorem fq_idle_holds_nothing : forall q, f_pc q = Idle -> checked_out q = None.
 Proof. intros q H. unfold checked_out. rewrite H. reflexivity. Qed.
+
+(** * C'. yielding stream polls
+    A stream poll that wakes the waker it is polled with and returns Pending ([LR2Y]) makes poll_next return
+    Pending at once (no spinning) with the stream's event queued, the stream back in the map and the
+    receiver already woken (no lost wake-up). *)
+Theorem yield_returns_pending : forall q ev q1 q2 es,
+  f_pc q = Out ev -> step q LR2Y = (q1, []) -> step q1 LR3 = (q2, es) ->
+  es = [EPending] /\ f_pc q2 = Idle /\ f_parked q2 = true /\ In ev (f_heap q2) /\ In (snd ev) (f_streams q2) /\
+  (f_rwaker q = true -> f_woken q2 = true).
+Proof.
+  intros q ev q1 q2 es Hpc H1 H2.
+  unfold step in H1. rewrite Hpc in H1. inversion H1; subst q1; clear H1.
+  unfold step in H2. rewrite wr_pc in H2. proj_in H2. inversion H2; subst q2 es; clear H2.
+  proj. rewrite wr_heap, wr_streams, wr_woken. proj.
+  repeat split; auto.
+  - apply heap_insert_In; auto.
+  - apply in_or_app; right; left; auto.
+  - intros ->; auto.
+Qed.
+
+(** the same when the race is the other way round: the poll returned Pending and kept a registration, and
+    that registration fires before the second critical section *)
+Theorem wake_during_poll_returns_pending : forall q ev ev' c q1 q2 es,
+  f_pc q = Polled ev QPending -> s_reg (the_src q (snd ev)) = Some ev' ->
+  step q (LWake (snd ev) c) = (q1, []) -> step q1 LR3 = (q2, es) ->
+  es = [EPending] /\ f_pc q2 = Idle /\ f_parked q2 = true /\ In ev' (f_heap q2) /\ In (snd ev) (f_streams q2) /\
+  (f_rwaker q = true -> f_woken q2 = true).
+Proof.
+  intros q ev ev' c q1 q2 es Hpc Hr H1 H2.
+  rewrite step_LWake, Hr, Hpc in H1. cbn [wake_pc] in H1. rewrite N.eqb_refl in H1.
+  inversion H1; subst q1; clear H1.
+  unfold step in H2. rewrite wr_pc in H2. proj_in H2. inversion H2; subst q2 es; clear H2.
+  proj. rewrite wr_heap, wr_streams, wr_woken. proj.
+  repeat split; auto.
+  - apply heap_insert_In; auto.
+  - apply in_or_app; right; left; auto.
+  - intros ->; auto.
+Qed.
+
+(** in every reachable state: a poll whose waker has fired has woken the receiver (or found it already
+    woken during this call), so the Pending it makes poll_next return is never a parked-and-unwoken one *)
+Theorem fq_yield_is_woken : forall q ev, reachable q -> f_pc q = Polled ev QYield ->
+  f_woken q = true /\
+  snd (step q LR3) = [EPending] /\ f_pc (fst (step q LR3)) = Idle /\
+  f_parked (fst (step q LR3)) = true /\ f_woken (fst (step q LR3)) = true.
+Proof.
+  intros q ev R Hpc. destruct (InvP_reachable q R) as (_ & _ & _ & I4).
+  specialize (I4 ev Hpc). unfold step. rewrite Hpc. proj. auto.
+Qed.
+
+(** the event of a poll whose waker has fired is in the ready heap (that is the claim the stream holds when
+    it is put back); a poll that returned Pending and has not been woken holds exactly its registration *)
+Definition InvY (q : fq) : Prop :=
+  (forall ev, f_pc q = Polled ev QPending -> s_reg (the_src q (snd ev)) = Some ev) /\
+  (forall ev, f_pc q = Polled ev QYield -> In ev (f_heap q)).
+
+Lemma InvY_step : forall q l, InvY q -> InvY (fst (step q l)).
+Proof.
+  intros q l [Y1 Y2]. unfold InvY. setoid_rewrite the_src_eq. setoid_rewrite the_src_eq in Y1.
+  destruct l; unfold step.
+  - destruct (f_pc q) eqn:Epc; proj; rewrite ?Epc; auto. split; discriminate.
+  - destruct (f_pc q) eqn:Epc; proj; rewrite ?Epc; auto.
+    destruct (f_heap q) as [|ev h'] eqn:Eh.
+    + destruct (negb (is_nilN (f_streams q)) || f_block q); proj; split; discriminate.
+    + destruct (memN (snd ev) (f_streams q)); proj; split; discriminate.
+  - destruct (f_pc q) eqn:Epc; proj; rewrite ?Epc; auto.
+    rewrite the_src_eq.
+    destruct (s_items (src_of (f_srcs q) (snd ev))); [destruct (s_closed (src_of (f_srcs q) (snd ev)))|]; proj;
+      (split; [|discriminate]); try discriminate.
+    intros ev' E. inversion E; subst. rewrite src_of_put_same. auto.
+  - destruct (f_pc q) eqn:Epc; wr; rewrite ?Epc; auto.
+    split; [discriminate|]. intros ev' E. inversion E; subst. apply heap_insert_In; auto.
+  - destruct (f_pc q) eqn:Epc; proj; rewrite ?Epc; auto.
+    destruct r; proj; split; discriminate.
+  - fold (step q (LWake k consume)). rewrite step_LWake, the_src_eq.
+    destruct (s_reg (src_of (f_srcs q) k)) as [ev|] eqn:Er; proj; auto.
+    wr. split.
+    + intros ev' E.
+      assert (Epc : f_pc q = Polled ev' QPending /\ (snd ev' =? k) = false).
+      { revert E. wake_cases q k; intros E; try discriminate; inversion E; subst; auto. }
+      destruct Epc as [Epc Ek]. apply N.eqb_neq in Ek.
+      destruct consume; auto. rewrite src_of_put_other; auto.
+    + intros ev' E. apply heap_insert_In.
+      revert E. wake_cases q k; intros E; try discriminate; inversion E; subst; auto.
+      apply N.eqb_eq in Ewk. subst k. left. specialize (Y1 _ eq_refl). congruence.
+  - proj. wr. split.
+    + intros ev' E. rewrite src_of_insert; auto.
+    + intros ev' E. apply heap_insert_In; auto.
+  - proj. auto.
+  - proj. rewrite the_src_eq. split; auto.
+    intros ev' E. rewrite src_of_put. destruct (k =? snd ev') eqn:Ek; auto.
+    apply N.eqb_eq in Ek; subst k. cbn [s_reg]. auto.
+  - proj. rewrite the_src_eq. split; auto.
+    intros ev' E. rewrite src_of_put. destruct (k =? snd ev') eqn:Ek; auto.
+    apply N.eqb_eq in Ek; subst k. cbn [s_reg]. auto.
+  - proj. auto.
+Qed.
+
+Theorem fq_yield_event_queued : forall q ev, reachable q -> f_pc q = Polled ev QYield -> In ev (f_heap q).
+Proof.
+  intros q ev R. revert ev.
+  assert (Y : InvY q); [|apply Y].
+  revert q R. apply reachable_invariant.
+  - intros b. split; cbn; discriminate.
+  - apply InvY_step.
+Qed.
 
 (** * D. no lost wake-up *)
 Theorem fq_no_lost_wakeup : forall q, reachable q -> f_parked q = true -> f_woken q = false ->
@@ -519,6 +706,10 @@ Proof.
     + proj. split; [split; [|discriminate]|].
       * rewrite src_of_put. destruct (snd ev =? k) eqn:E; auto. apply N.eqb_eq in E; subst; auto.
       * intros [H|[_ H]]; try discriminate; auto.
+  - (* LR2Y *)
+    destruct (f_pc q) eqn:Epc; wr; rewrite ?Epc;
+      try (split; [split; auto|]; intros [H|[_ H]]; try discriminate; auto; fail).
+    split; [split; [auto|discriminate]|]. intros [H|[_ H]]; try discriminate; auto.
   - (* LR3 *)
     destruct (f_pc q) eqn:Epc; proj; rewrite ?Epc;
       try (split; [split; auto|]; intros [H|[_ H]]; try discriminate; auto; fail).
@@ -529,13 +720,20 @@ Proof.
     + inversion H. exfalso. eapply C2; eauto.
     + left. apply in_or_app; auto.
     + inversion H; subst. left. apply in_or_app; right; left; auto.
+    + left. apply in_or_app; auto.
+    + inversion H; subst. left. apply in_or_app; right; left; auto.
   - (* LWake *)
-    rewrite the_src_eq.
+    fold (step q (LWake k0 consume)). rewrite step_LWake, the_src_eq.
     destruct (s_reg (src_of (f_srcs q) k0)) as [ev|] eqn:Er; proj.
     2:{ split; [split; auto|]. intros [H|[_ H]]; try discriminate; auto. }
-    wr. split; [split; auto|].
+    wr.
+    assert (Hco : match wake_pc (f_pc q) k0 with Out ev => Some (snd ev) | Polled ev _ => Some (snd ev) | _ => None end =
+                  match f_pc q with Out ev => Some (snd ev) | Polled ev _ => Some (snd ev) | _ => None end)
+      by (wake_cases q k0; auto).
+    rewrite Hco. split; [split|].
     + destruct consume; auto. rewrite src_of_put. destruct (k0 =? k) eqn:E; auto.
       apply N.eqb_eq in E; subst; auto.
+    + intros ev' E. apply C2. revert E. wake_cases q k0; auto; discriminate.
     + intros [H|[_ H]]; try discriminate; auto.
   - (* LInsert *)
     proj. wr. rewrite src_of_insert. split; [split; auto|].
@@ -556,6 +754,8 @@ Proof.
     proj. rewrite the_src_eq, src_of_put. split; [split; auto|].
     + destruct (k0 =? k) eqn:E; auto. apply N.eqb_eq in E; subst; congruence.
     + intros [H|[_ H]]; try discriminate; auto.
+  - (* LYield *)
+    proj. split; [split; auto|]. intros [H|[_ H]]; try discriminate; auto.
 Qed.
 
 Lemma InvC_run : forall ls q k, ~ In (LClose k) ls -> InvC q k -> InvC (fst (run q ls)) k.
@@ -658,6 +858,7 @@ Definition meas (q : fq) (W : nat) : nat :=
   match f_pc q with
   | Idle => 0
   | Loop => 3 * (length (f_heap q) + W) + 1
+  | Polled _ QYield => 1
   | Polled _ _ => 3 * (length (f_heap q) + W) + 2
   | Out _ => 3 * (length (f_heap q) + W) + 3
   end.
@@ -667,7 +868,28 @@ Definition budget (idx : nat) (w : list label) (nth : nat) : nat :=
 
 Lemma meas_LR2 : forall q, (meas (fst (step q LR2)) 0 <= 3 * length (f_heap q) + 2)%nat.
 Proof.
-  intros q. unfold meas. step_cases q; proj; rewrite ?Epc; lia.
+  intros q. unfold meas, step. destruct (f_pc q) as [| |ev|ev r] eqn:Epc; proj; rewrite ?Epc; try lia.
+  - destruct (s_items (the_src q (snd ev))); [destruct (s_closed (the_src q (snd ev)))|]; proj; lia.
+  - destruct r; lia.
+Qed.
+
+Lemma meas_LR2Y : forall q, (meas (fst (step q LR2Y)) 0 <= 3 * length (f_heap q) + 2)%nat.
+Proof.
+  intros q. unfold meas, step. destruct (f_pc q) as [| |ev|ev r] eqn:Epc; wr; rewrite ?Epc; try lia.
+  destruct r; lia.
+Qed.
+
+(** the stream poll of one loop iteration, plain or yielding *)
+Lemma meas_poll : forall q (y : bool),
+  (meas (fst (step q (if y then LR2Y else LR2))) 0 <= 3 * length (f_heap q) + 2)%nat.
+Proof. intros q [|]; [apply meas_LR2Y|apply meas_LR2]. Qed.
+
+Lemma meas_poll_out : forall q ev (y : bool) W, f_pc q = Out ev ->
+  (meas (fst (step q (if y then LR2Y else LR2))) W <= 3 * (length (f_heap q) + W) + 2)%nat.
+Proof.
+  intros q ev y W Epc. unfold meas. destruct y; unfold step; rewrite Epc.
+  - wr. lia.
+  - destruct (s_items (the_src q (snd ev))); [destruct (s_closed (the_src q (snd ev)))|]; proj; lia.
 Qed.
 
 Lemma poll_loop_idle : forall idx w fuel q nth,
@@ -675,10 +897,12 @@ Lemma poll_loop_idle : forall idx w fuel q nth,
   f_pc (fst (fst (poll_loop fuel q idx w nth))) = Idle.
 Proof.
   intros idx w. induction fuel as [|f IH]; intros q nth Hm.
-  - cbn [poll_loop fst]. unfold meas in Hm. destruct (f_pc q); auto; lia.
-  - cbn [poll_loop]. unfold meas in Hm. destruct (f_pc q) eqn:Epc.
+  - cbn [poll_loop fst]. unfold meas in Hm. destruct (f_pc q) as [| |ev|ev r]; auto; try lia.
+    destruct r; lia.
+  - cbn [poll_loop]. destruct (f_pc q) eqn:Epc.
     + cbn [fst]; auto.
-    + destruct (step q LR1) as [q1 e1] eqn:Es.
+    + unfold meas in Hm. rewrite Epc in Hm.
+      destruct (step q LR1) as [q1 e1] eqn:Es.
       specialize (IH q1 nth).
       destruct (poll_loop f q1 idx w nth) as [[q2 e2] n2]. cbn [fst] in *. apply IH.
       replace q1 with (fst (step q LR1)) by (rewrite Es; auto).
@@ -686,17 +910,21 @@ Proof.
       destruct (f_heap q) as [|ev h'] eqn:Eh.
       * destruct (negb (is_nilN (f_streams q)) || f_block q); proj; lia.
       * cbn [length] in Hm. destruct (memN (snd ev) (f_streams q)); proj; lia.
-    + destruct (Nat.eqb nth idx) eqn:En.
+    + unfold meas in Hm. rewrite Epc in Hm.
+      destruct (Nat.eqb nth idx) eqn:En.
       * apply Nat.eqb_eq in En. subst nth.
         destruct (run q w) as [q0 e0] eqn:Er.
-        destruct (step q0 LR2) as [q1 e1] eqn:Es.
+        cbn [andb].
+        set (y := existsb (fun l => match l with LYield => true | _ => false end) w).
+        destruct (step q0 (if y then LR2Y else LR2)) as [q1 e1] eqn:Es.
         specialize (IH q1 (S idx)).
         destruct (poll_loop f q1 idx w (S idx)) as [[q2 e2] n2]. cbn [fst] in *. apply IH.
         unfold budget in *. rewrite Nat.leb_refl in Hm.
         replace (Nat.leb (S idx) idx) with false by (symmetry; apply Nat.leb_gt; lia).
-        replace q1 with (fst (step q0 LR2)) by (rewrite Es; auto).
-        pose proof (meas_LR2 q0). pose proof (run_heap_len w q). rewrite Er in *. cbn [fst] in *. lia.
-      * destruct (step q LR2) as [q1 e1] eqn:Es.
+        replace q1 with (fst (step q0 (if y then LR2Y else LR2))) by (rewrite Es; auto).
+        pose proof (meas_poll q0 y). pose proof (run_heap_len w q). rewrite Er in *. cbn [fst] in *. lia.
+      * cbn [andb].
+        destruct (step q LR2) as [q1 e1] eqn:Es.
         specialize (IH q1 (S nth)).
         destruct (poll_loop f q1 idx w (S nth)) as [[q2 e2] n2]. cbn [fst] in *. apply IH.
         replace q1 with (fst (step q LR2)) by (rewrite Es; auto).
@@ -704,12 +932,12 @@ Proof.
         { unfold budget. destruct (Nat.leb (S nth) idx) eqn:E1; [|lia].
           apply Nat.leb_le in E1. replace (Nat.leb nth idx) with true; auto.
           symmetry; apply Nat.leb_le; lia. }
-        unfold meas, step. rewrite Epc.
-        destruct (s_items (the_src q (snd ev))); [destruct (s_closed (the_src q (snd ev)))|]; proj; lia.
+        pose proof (meas_poll_out q ev false (budget idx w (S nth)) Epc) as X. cbn iota in X. lia.
     + destruct (step q LR3) as [q1 e1] eqn:Es.
       specialize (IH q1 nth).
       destruct (poll_loop f q1 idx w nth) as [[q2 e2] n2]. cbn [fst] in *. apply IH.
       replace q1 with (fst (step q LR3)) by (rewrite Es; auto).
+      unfold meas in Hm. rewrite Epc in Hm.
       unfold meas, step. rewrite Epc. destruct r; proj; lia.
 Qed.
 
@@ -735,7 +963,7 @@ Corollary poll_returns_idle_nil : forall q idx, f_pc q = Idle -> f_pc (fst (poll
 Proof. intros. apply poll_returns_idle_noStart; auto. Qed.
 
 Definition env_label (l : label) : bool :=
-  match l with LStart | LR1 | LR2 | LR3 => false | _ => true end.
+  match l with LStart | LR1 | LR2 | LR2Y | LR3 => false | _ => true end.
 
 Corollary poll_returns_idle_env : forall q idx w, forallb env_label w = true ->
   f_pc q = Idle -> f_pc (fst (poll q idx w)) = Idle.
@@ -766,12 +994,51 @@ Proof.
   - reflexivity.
 Qed.
 
+(** Counting every polled stream except [QPending] as "being polled" (the definition before [QYield]
+    existed, read literally) counts a yielding stream twice: its event is already back in the heap. *)
+Definition polling_v1 (q : fq) : option N :=
+  match f_pc q with
+  | Out ev => Some (snd ev)
+  | Polled ev QPending => None
+  | Polled ev _ => Some (snd ev)
+  | _ => None
+  end.
+Definition claims_v1 (q : fq) (k : N) : nat :=
+  length (filter (fun e => snd e =? k) (f_heap q)) + (match s_reg (the_src q k) with Some _ => 1 | None => 0 end)
+  + (match polling_v1 q with Some k' => if k' =? k then 1 else 0 | None => 0 end).
+
+Example claims_v1_counterexample :
+  let ls := [LInsert 0; LStart; LR1; LR2Y] in
+  (forall k c, In (LWake k c) ls -> c = true) /\ NoDup (insert_keys ls) /\
+  claims_v1 (fst (run (fq0 false) ls)) 0 = 2%nat.
+Proof.
+  cbv zeta. split; [|split].
+  - intros k c H. cbn in H. intuition discriminate.
+  - cbn. constructor; [intros []|constructor].
+  - vm_compute. reflexivity.
+Qed.
+
+(** the same double count without any yielding poll: the registration made by the poll in progress fires
+    before R3 (so [~ In LR2Y ls] would not have rescued the literal definition) *)
+Example claims_v1_counterexample_wake :
+  let ls := [LInsert 0; LStart; LR1; LR2; LWake 0 true] in
+  (forall k c, In (LWake k c) ls -> c = true) /\ NoDup (insert_keys ls) /\ ~ In LR2Y ls /\
+  claims_v1 (fst (run (fq0 false) ls)) 0 = 2%nat.
+Proof.
+  cbv zeta. split; [|split; [|split]].
+  - intros k c H. cbn in H. intuition (try discriminate). inversion H0; auto.
+  - cbn. constructor; [intros []|constructor].
+  - cbn. intuition discriminate.
+  - vm_compute. reflexivity.
+Qed.
+
 (** corrected: the stream being polled counts once; once its poll has returned Pending the claim is the
-    registration (or, if the waker already fired, the event in the heap) *)
+    registration (or, if the waker already fired - in particular for a yielding poll - the event in the heap) *)
 Definition polling (q : fq) : option N :=
   match f_pc q with
   | Out ev => Some (snd ev)
   | Polled ev QPending => None
+  | Polled ev QYield => None
   | Polled ev _ => Some (snd ev)
   | _ => None
   end.
@@ -786,6 +1053,7 @@ Definition polc (p : pc) (k : N) : nat :=
   match p with
   | Out ev => b2n (snd ev =? k)
   | Polled ev QPending => 0
+  | Polled ev QYield => 0
   | Polled ev _ => b2n (snd ev =? k)
   | _ => 0
   end.
@@ -838,12 +1106,17 @@ Proof.
       pose proof (regc_le1 {| s_items := []; s_closed := false; s_reg := Some ev |}). lia.
     + proj. cbn [polc]. rewrite src_of_put. destruct (snd ev =? k) eqn:Ek; try lia.
       apply N.eqb_eq in Ek. subst k. unfold regc; cbn [s_reg]. lia.
+  - (* LR2Y *)
+    destruct (f_pc q) eqn:Epc; wr; rewrite ?Epc; try lia.
+    rewrite hcount_insert. cbn [polc]. lia.
   - destruct (f_pc q) eqn:Epc; proj; rewrite ?Epc; try lia.
     destruct r; proj; cbn [polc]; try lia.
     rewrite hcount_insert. cbn [snd]. lia.
-  - rewrite the_src_eq.
+  - fold (step q (LWake k0 consume)). rewrite step_LWake, the_src_eq.
     destruct (s_reg (src_of (f_srcs q) k0)) as [ev|] eqn:Er; proj; try lia.
     wr. rewrite hcount_insert.
+    assert (Hpc : polc (wake_pc (f_pc q) k0) k = polc (f_pc q) k) by (wake_cases q k0; auto).
+    rewrite Hpc.
     assert (Ek : snd ev = k0) by (apply RK; rewrite the_src_eq; auto).
     destruct consume; [|exfalso; eapply Hl; eauto].
     rewrite src_of_put, Ek. destruct (k0 =? k) eqn:E; cbn [b2n]; try lia.
@@ -854,6 +1127,7 @@ Proof.
     apply N.eqb_eq in E; subst k0. unfold regc; cbn [s_reg]. lia.
   - proj. rewrite the_src_eq, src_of_put. destruct (k0 =? k) eqn:E; try lia.
     apply N.eqb_eq in E; subst k0. unfold regc; cbn [s_reg]. lia.
+  - proj. lia.
 Qed.
 
 Lemma insert_keys_app : forall a b, insert_keys (a ++ b) = insert_keys a ++ insert_keys b.
@@ -942,14 +1216,20 @@ Proof.
       try (cbn [pc_ev]; intros ev' E; inversion E; subst; auto; fail);
       try (intros k ev'; rewrite src_of_put; destruct (snd ev =? k); [|apply H2];
            cbn [s_reg]; try (apply H2); intros E; inversion E; subst; auto).
+  - (* LR2Y *)
+    destruct (f_pc q) eqn:Epc; wr; rewrite ?Epc; auto.
+    split; [|split]; auto.
+    intros e He. apply heap_insert_In in He. destruct He as [->|He]; auto.
   - destruct (f_pc q) eqn:Epc; proj; rewrite ?Epc; auto.
     destruct r; proj; (split; [|split]; auto); try (cbn; discriminate);
       try (intros k ev' E; specialize (H2 k ev' E); lia).
     intros e He. apply heap_insert_In in He. destruct He as [->|He]; [cbn [fst]; lia|].
     specialize (H1 e He). lia.
-  - rewrite the_src_eq.
+  - fold (step q (LWake k consume)). rewrite step_LWake, the_src_eq.
     destruct (s_reg (src_of (f_srcs q) k)) as [ev|] eqn:Er; proj; auto.
-    wr. split; [|split]; auto.
+    wr.
+    assert (Hpc : pc_ev (wake_pc (f_pc q) k) = pc_ev (f_pc q)) by (wake_cases q k; auto).
+    rewrite Hpc. split; [|split]; auto.
     + intros e He. apply heap_insert_In in He. destruct He as [->|He]; auto. eapply H2; eauto.
     + destruct consume; auto. intros k' ev'. rewrite src_of_put.
       destruct (k =? k'); [cbn [s_reg]; discriminate|apply H2].
@@ -965,6 +1245,7 @@ Proof.
   - proj. rewrite the_src_eq. split; [|split]; auto.
     intros k' ev'. rewrite src_of_put. destruct (k =? k') eqn:E; [|apply H2].
     cbn [s_reg]. apply H2.
+  - proj. auto.
 Qed.
 
 Theorem fq_prio_bound : forall q, reachable q -> prio_bound q.
@@ -1082,12 +1363,19 @@ Proof.
       pose proof (rcount_put (ahead p i) (snd ev)
         {| s_items := l; s_closed := s_closed (src_of (f_srcs q) (snd ev)); s_reg := s_reg (src_of (f_srcs q) (snd ev)) |} (f_srcs q)) as X.
       unfold regf at 2 in X. cbn [s_reg] in X. fold (regf (ahead p i) (src_of (f_srcs q) (snd ev))) in X. lia.
+  - (* LR2Y *)
+    destruct (f_pc q) eqn:Epc; wr; rewrite ?Epc; cbn [nready]; try lia.
+    rewrite hcount_insert. pose proof (b2n_le1 (ahead p i ev)). lia.
   - destruct (f_pc q) eqn:Epc; proj; rewrite ?Epc; cbn [nready]; try lia.
     destruct r; proj; cbn [nready]; try lia.
     rewrite hcount_insert, ahead_fresh by auto. cbn [b2n]. lia.
-  - rewrite the_src_eq in *.
+  - fold (step q (LWake k consume)) in *. rewrite step_LWake, the_src_eq in *.
     destruct (s_reg (src_of (f_srcs q) k)) as [ev|] eqn:Er; proj; cbn [nready]; try lia.
     wr. rewrite hcount_insert.
+    assert (Hpc : match wake_pc (f_pc q) k with Out _ => 1%nat | Polled _ (QSome _) => 1%nat | _ => 0%nat end =
+                  match f_pc q with Out _ => 1%nat | Polled _ (QSome _) => 1%nat | _ => 0%nat end)
+      by (wake_cases q k; auto).
+    rewrite Hpc.
     destruct consume; [|exfalso; eapply Hl; eauto].
     pose proof (rcount_put (ahead p i) k
         {| s_items := s_items (src_of (f_srcs q) k); s_closed := s_closed (src_of (f_srcs q) k); s_reg := None |} (f_srcs q)) as X.
@@ -1102,6 +1390,7 @@ Proof.
     pose proof (rcount_put (ahead p i) k
         {| s_items := s_items (src_of (f_srcs q) k); s_closed := true; s_reg := s_reg (src_of (f_srcs q) k) |} (f_srcs q)) as X.
     unfold regf at 2 in X. cbn [s_reg] in X. fold (regf (ahead p i) (src_of (f_srcs q) k)) in X. lia.
+  - proj. cbn [nready]. lia.
 Qed.
 
 Lemma contract_prefix : forall a b, contract (a ++ b) -> contract a.
@@ -1342,6 +1631,12 @@ Print Assumptions fq_exactly_once_in_order.
 Print Assumptions fq_claim_invariant.
 Print Assumptions fq_parked_invariant.
 Print Assumptions fq_no_lost_wakeup.
+Print Assumptions yield_returns_pending.
+Print Assumptions wake_during_poll_returns_pending.
+Print Assumptions fq_yield_is_woken.
+Print Assumptions fq_yield_event_queued.
+Print Assumptions claims_v1_counterexample.
+Print Assumptions claims_v1_counterexample_wake.
 Print Assumptions fq_wake_wakes_receiver.
 Print Assumptions fq_insert_wakes_receiver.
 Print Assumptions fq_idle_holds_nothing.
